@@ -7,3 +7,13 @@ Theorem C02_refusal_is_atomic `{Sig} : forall E n ks c st e st',
   atomically E (call3_prog n ks c) st = (RErr e, st') -> st' = st.
 Proof. intros E n ks c. exact (atomically_err_noop E (call3_prog n ks c)). Qed.
 Print Assumptions C02_refusal_is_atomic.
+
+(** The 3-link / 3-unlink cores of the model are the programs regenerated from components/betas.rs. *)
+From HC Require Import Map2.GenBetas Map2.GenBetasLaws.
+Theorem C02_cores_are_the_source `{Sig} :
+  (forall l r, gen_three_link_core l r = three_link_core l r) /\ (forall l, gen_three_unlink_core l = three_unlink_core l) /\
+  (forall l r, gen_one_link_core l r = one_link_core l r) /\ (forall l r, gen_two_link_core l r = two_link_core l r).
+Proof.
+  destruct cores_are_the_source as (A & B & C & _ & _ & D). repeat split; assumption.
+Qed.
+Print Assumptions C02_cores_are_the_source.
